@@ -9,23 +9,20 @@ Require V.MQ.MqModel V.MQ.MqProofs V.MQ.MqProofsRt.
    reconstruction) applied to the output of the block encoder (EncodeLayered, all 3*planes-2
    passes) returns the block.  fb = SetNMSEDecFractionalBits; coefficients are multiples of 2^fb
    with |v| <= 2^30.
-   Status: PARTIAL - 48 of the 64 style combinations (everything except LAZY without TERMALL).
-   Proved, unbounded in block size, orientation, coefficients, fb (T1ProofsCompThm, T1ProofsTermall,
-   T1ProofsPterm, T1ProofsLazyTerm; summary theorems t1_bytes_roundtrip_unconditional /
-   t1_bytes_roundtrip_covered):
+   Status: proved for all 64 style combinations, unbounded in block size, orientation,
+   coefficients, fb (T1ProofsCompThm, T1ProofsTermall, T1ProofsPterm, T1ProofsLazyTerm,
+   T1ProofsLazy; summary theorems T1ProofsLazy.t1_roundtrip_all / t1_bytes_roundtrip_all_styles /
+   t1_bytes_roundtrip_no_pterm):
      - no LAZY, no TERMALL: one MQ codeword (RESET, VSC, SEGSYM, PTERM in any combination);
-     - TERMALL, with or without LAZY: one segment per pass, MQ codeword or raw bits.
-   With PTERM on a terminated pass (TERMALL+PTERM, or PTERM with fb = 0) the theorems carry the
-   hypothesis that EncodeLayered's output is not empty: GetBuffer does not count a final byte
-   0xFF, so a codeword closed by ErtermEnc can be empty for all the MQ invariants say, and the
-   decoder rejects empty data (no such stream exists among all decision sequences of length <= 6
-   over the T1 start contexts; the harness found none).
-   Missing: LAZY without TERMALL (16 combinations): codeword segments spanning several passes
-   (the MQ codeword down to bit-plane maxBitplane-3, then raw SPP+MRP segments alternating with
-   cleanup codewords), the Rate values of the non-terminated passes in between
-   (actual + 3 / + BypassExtraBytes, clipped by normalizePassRates) and the decoder's segment
-   look-ahead.  The ingredients are available (mq_passes_future, restart_segment, raw_pass_step,
-   dec_passes_fsim); the bookkeeping is not done.  Below the full statement is decided by
+     - TERMALL, with or without LAZY: one segment per pass, MQ codeword or raw bits;
+     - LAZY without TERMALL: the MQ codeword down to bit-plane maxBitplane-3, then raw SPP+MRP
+       segments alternating with cleanup codewords (T1ProofsLazyMq .. T1ProofsLazy).
+   For the styles with PTERM the theorems carry the hypothesis that EncodeLayered's output is not
+   empty (except PTERM alone with fb >= 1): GetBuffer does not count a final byte 0xFF, so a
+   codeword closed by ErtermEnc can be empty for all the MQ invariants say, and the decoder
+   rejects empty data (no such stream exists among all decision sequences of length <= 6 over the
+   T1 start contexts; the harness found none).  The Definition below is the statement WITHOUT
+   that hypothesis; it is a theorem for the 32 styles without PTERM.  Below it is also decided by
    computation on bounded domains for all 64 styles. *)
 Definition t1_roundtrip_statement : Prop :=
   forall (wn hn : nat) (orient style fb : Z) (data : list Z),
